@@ -10,7 +10,7 @@ from vlib.ref import bip32 as R
 from vlib.util import call, expect_eq
 
 PROPERTY_ID = "C07"
-OPTIMIZED = ['versions', 'roundtrip', 'master']   # clauses run a second time under `python -O` (assert statements stripped)
+OPTIMIZED = ['versions', 'roundtrip', 'master', 'x-above-order']   # clauses run a second time under `python -O` (assert statements stripped)
 RULE = ("78-byte payloads valid per BIP32 (depth 0..255, fingerprint/child number zero iff depth 0, chain code, "
         "00||k or serP(kG)) serialised by the reference under all twelve SLIP-132 versions (exhaustive per case) and "
         "parsed from str / bytes / BytesIO; unknown versions from bit flips, multisig SLIP-132 and uniform 32-bit")
@@ -259,6 +259,61 @@ def check_version(case, ctx):
                             "(%s...): testnet=%r watch_only=%r" % (v, s[:8], w.testnet, w.watch_only))
 
 
+# ------------------------------------------------------------------------------------ public keys whose x is >= the group order
+def high_x_points(count=6):
+    """Curve points with n <= x < p (valid public keys; about 2^-128 of all points, so they are constructed, not drawn)."""
+    out, x = [], N
+    while len(out) < count:
+        for odd in (False, True):
+            pt = secp.lift_x(x, odd)
+            if pt is not None:
+                out.append(pt)
+        x += 1
+    return out[:count]
+
+
+def enum_highx(tier):
+    for j, pt in enumerate(high_x_points(6 if tier == "quick" else 16)):
+        yield {"pt": [pt[0], pt[1]], "c": bytes([j + 1]) * 32, "depth": [0, 1, 3, 255][j % 4], "index": [0, 5, H + 1, 2 ** 32 - 1][j % 4]}
+
+
+def check_highx(case, ctx):
+    """Only a private key is bounded by the group order n; the x coordinate of a public key is bounded by the field prime p."""
+    Prv, Pub, BaseWallet, Version, Key = _impl()
+    pt = tuple(case["pt"])
+    depth = case["depth"]
+    index, pfp = (0, b"\x00" * 4) if depth == 0 else (case["index"], b"\x11\x22\x33\x44")
+    ref = R.Node(None, pt, case["c"], depth, index, pfp)
+    for v in VERSIONS:
+        typ, testnet, purpose = R.SLIP132[v]
+        if typ != "pub":
+            continue
+        raw = ref.payload(v, False)
+        s = b58.encode_check(raw)
+        tag = "extended public key with x >= n under version %#010x (%s)" % (v, s[:4])
+        for form, arg in (("str", s), ("bytes", raw), ("BytesIO", BytesIO(raw))):
+            st_, n = call(Pub.parse, arg, testnet)
+            if st_ == "exc":
+                raise Violation("C07/high-x/parse-raised[%s]" % form, "%s: parse(%s) raised %r" % (tag, form, n))
+            st_, again = call(n.extended_public_key, version=v)
+            if st_ == "exc" or again != s:
+                raise Violation("C07/high-x/reserialise", "%s parsed from %s re-serialises as %r" % (tag, form, again))
+            st_, sec = call(lambda: n.public_key.sec())
+            if st_ == "exc" or sec != ref.sec():
+                raise Violation("C07/high-x/public-key", "%s: public_key.sec() = %r" % (tag, sec))
+        st_, w = call(BaseWallet.from_extended_key, s)
+        if st_ == "exc" or not w.watch_only or bool(w.testnet) != testnet:
+            raise Violation("C07/high-x/wallet", "%s: from_extended_key gave %r" % (tag, w))
+        if depth < 255:
+            try:
+                rc = R.ckd_pub(ref, 0)
+            except R.Invalid:
+                continue
+            st_, ch = call(lambda: Pub.parse(s, testnet).ckd(0).extended_public_key(version=v))
+            if st_ == "exc" or ch != b58.encode_check(rc.payload(v, False)):
+                raise Violation("C07/high-x/child", "%s: child 0 serialises as %r" % (tag, ch))
+
+
 def _cold_build(it):
     k, c, depth, index, pfp, v = it
     if depth == 0:
@@ -297,4 +352,10 @@ def clauses():
         __import__("vlib.cold", fromlist=["x"]).cold_clause(
             "C07", st.tuples(S.scalars(), S.chain_codes(), st.sampled_from([0, 1, 3, 255]), S.indexes(), S.fingerprints(), st.sampled_from(VERSIONS)),
             _cold_build, "parse an extended key and serialise it again under its version"),
+        Clause("x-above-order", check_highx,
+               "extended public keys whose public-key x coordinate lies in [n, p) (constructed: x = n, n+1, ... until on "
+               "the curve), all six public versions, str / bytes / stream: parse, re-serialise, wallet import and a child "
+               "derivation must work exactly as for any other valid point",
+               enum=enum_highx, exhaustive=True, enum_desc="6 (quick) / 16 (thorough) points with n <= x < p x 6 public versions",
+               nontrivial=lambda c: True, shards={"quick": 6, "thorough": 16}),
     ]
